@@ -330,6 +330,12 @@ class WorldC06(World):
             for _ in range(o['n_cond']):
                 pick = rng.sample(names, rng.randint(1, min(5, len(names))))
                 fr.append({nm: round(rng.uniform(0, 1), 3) for nm in pick})
+            side_ = side_stream(rng)
+            if side_.random() < 0.3:
+                # a species that is named in every run and absent from the feed (a product, an empty adsorbate): 0 throughout
+                z = side_.choice(names)
+                for f_ in fr:
+                    f_[z] = side_.choice([0, 0.0])
             o['fracs'] = fr
         wf = [k for k in sw['fault_kinds'] if k in WRITE_FAULTS]
         fault = None
